@@ -84,8 +84,10 @@ class SrcInfo:
                 params.append(re.match(r"([A-Za-z_0-9]+)", p).group(1))
             self.fn_generics.setdefault(m.group(1), []).append(params)
 
-    def struct_fields(self, name):
+    def struct_fields(self, name, having=None):
         c = self.structs.get(name, [])
+        if having is not None:
+            c = [x for x in c if having in x]
         if c and all(x == c[0] for x in c):
             return c[0]
         return None
